@@ -358,7 +358,7 @@ def opaque_cases():
     return _OPAQUE
 
 
-PLACE_OPTS = ['none', 'G1', 'G2', 'G1-scaled', 'G1-unscaled', 'G2-zero', 'G1-nonum']
+PLACE_OPTS = ['none', 'G1', 'G2', 'G1-scaled', 'G1-unscaled', 'G2-zero', 'G1-nonum', 'G2-one']
 PG = {'G1': [dict(LIN, src=None)], 'G2': [dict(POLY3, src=R.RAW), {'type': 'Add', 'left': 0, 'right': R.RAW}]}
 
 
@@ -378,6 +378,11 @@ def placement_file(combo, late=False, chan=None):
         if opt.endswith('-zero'):
             props = R.props_for(g, number_of_scales=False) + [R._u('NI_Number_Of_Scales', 0)]
             applies = False
+        elif opt.endswith('-one'):
+            # both definitions are present but the count says one: scale 0 is the last scale, the second definition is unused
+            props = R.props_for(g, number_of_scales=False) + [R._u('NI_Number_Of_Scales', 1)]
+            g = g[:1]
+            applies = True
         else:
             props = R.props_for(g, number_of_scales=not opt.endswith('-nonum'), status=status)
             applies = status != 'scaled'
